@@ -30,6 +30,8 @@ FLAVOURS = {
     # semantics of the baseline suite (RelWithDebInfo => NDEBUG)
     "rel": ["-O1", "-g", "-DNDEBUG", "-fno-omit-frame-pointer"],
     "asan": ["-O1", "-g", "-DNDEBUG", "-fno-omit-frame-pointer", "-fsanitize=address"],
+    # free-running auxiliary pass of C06 (thorough only)
+    "tsan": ["-O1", "-g", "-DNDEBUG", "-fno-omit-frame-pointer", "-fsanitize=thread"],
 }
 
 # id -> description of the harness
@@ -51,7 +53,8 @@ reg("C04", "checks/C04_dispatch.cpp", flavour="asan")
 reg("C05", "checks/C05_match.cpp")
 reg("C06", parts=[part("checks/C06_threadlink.cpp", special="tl_hook", omit=["src/cpp/thread-link.cpp"], shards=1, args=["--part", "B"], name="B"),
                   part("checks/C06_threadlink.cpp", special="tl_hook", omit=["src/cpp/thread-link.cpp"], shards=15, args=["--part", "A"], name="A"),
-                  part("checks/C06_threadlink.cpp", special="tl_hook", omit=["src/cpp/thread-link.cpp"], shards=8, args=["--part", "A", "--ext"], name="Aext")])
+                  part("checks/C06_threadlink.cpp", special="tl_hook", omit=["src/cpp/thread-link.cpp"], shards=8, args=["--part", "A", "--ext"], name="Aext"),
+                  part("checks/C06_tsan.cpp", flavour="tsan", shards=1, name="tsan")])
 reg("C07", "checks/C07_validate.cpp")
 reg("C08", "checks/C08_bundle.cpp")
 reg("C09", "checks/C09_walk.cpp", flavour="asan")
@@ -223,6 +226,7 @@ def sanitize(s):
 def child_env():
     e = dict(os.environ)
     e["TZ"] = "UTC"; e["LC_ALL"] = "C"
+    e["TSAN_OPTIONS"] = "exitcode=66:halt_on_error=1"
     e["ASAN_OPTIONS"] = "detect_leaks=0:abort_on_error=0:halt_on_error=1:exitcode=77:allocator_may_return_null=1:detect_stack_use_after_return=0"
     return e
 
@@ -309,7 +313,7 @@ def main():
         return 0
     if a.setup:
         th = tree_hash()
-        for fl in FLAVOURS: build_lib(fl, th)
+        for fl in ("rel", "asan"): build_lib(fl, th)
         manifest = json.load(open(os.path.join(VERIF, "MANIFEST.json")))
         ids = [c["property_id"] for c in manifest["checks"]]
         with ThreadPoolExecutor(8) as ex:
